@@ -29,7 +29,9 @@ typedef struct rfc1055_context {
     enum {
         RFC1055_SEARCH_FOR_START,
         RFC1055_SEARCH_FOR_END,
-        RFC1055_NORMAL
+        RFC1055_NORMAL,
+        /* First octet of an escape sequence consumed, second one pending */
+        RFC1055_ESCAPE
     } state;
     uint32_t flags;
 } RFC1055Context;
